@@ -52,7 +52,7 @@ def _respond(p, secret, spi_i, peer_addr, data):
     return b, reply, len(dh_calls)
 
 
-def h_responder(n_cookies, nonce_len, cookie_len=32, version=4):
+def h_responder(n_cookies, nonce_len, cookie_len=32, version=4, variant='plain'):
     """The property does not fix the form of the cookie, only what it binds, so the reference is the responder itself: under one ARBITRARY
     secret, ISSUED(SPI, Ni, address) is the cookie the real responder puts into its COOKIE notification for a cookie-less request.
     (1) a request with arbitrary cookies is accepted iff its first cookie equals ISSUED of its own SPI, nonce and address ("returned unchanged"),
@@ -66,6 +66,14 @@ def h_responder(n_cookies, nonce_len, cookie_len=32, version=4):
     S = ik.IkeSa.State
     p = world.Pair()
     base = m.Message.parse(bytes(p.init_req()))
+    if variant == 'unwanted_ke_group':
+        # the KE payload is in a group the responder would answer with INVALID_KE_PAYLOAD - but only to a peer that returned its cookie
+        base.payloads = [m.PayloadKE(20, b'k' * 96) if x.type == m.Payload.Type.KE else x for x in base.payloads]
+    elif variant == 'no_common_proposal':
+        T = m.Transform
+        bad = m.Proposal(1, m.Proposal.Protocol.IKE, b'', [T(T.Type.ENCR, T.EncrId.ENCR_3DES), T(T.Type.INTEG, T.IntegId.AUTH_HMAC_MD5_96),
+                                                           T(T.Type.PRF, T.PrfId.PRF_HMAC_MD5), T(T.Type.DH, T.DhId.DH_2)])
+        base.payloads = [m.PayloadSA([bad]) if x.type == m.Payload.Type.SA else x for x in base.payloads]
     secret = eng.sym_bytes('secret', 8)
     bits = 32 if version == 4 else 128
     cls_a = ipaddress.IPv4Address if version == 4 else ipaddress.IPv6Address
@@ -112,6 +120,13 @@ def h_responder(n_cookies, nonce_len, cookie_len=32, version=4):
     cookies = [eng.sym_bytes(f'cookie{i}', cookie_len if i == 0 else 32) for i in range(n_cookies)]
     unchanged = (L(cookies[0]) == k1) if len(cookies[0]) == len(k1) else False
     b, reply, dh = _respond(p, secret, spi1, addr1, _request(m, base, spi1, nonce1, cookies))
+    if variant != 'plain' and b.state == S.DELETED and reply is not None and not dh:
+        # with the right cookie such a request is answered INVALID_KE_PAYLOAD / NO_PROPOSAL_CHOSEN; without it, by a lone COOKIE
+        rep = m.Message.parse(reply)
+        kinds = [int(x.notification_type) for x in rep.payloads if x.type == m.Payload.Type.NOTIFY]
+        P(core.sym_or(unchanged, kinds == [int(m.PayloadNOTIFY.Type.COOKIE)]),
+          f'{variant}: a request WITHOUT the right cookie was answered with notifications {kinds} (the responder discloses its policy to an unverified source)')
+        return ['responder', 'refused']
     if b.state == S.INIT_RES_SENT:
         P(unchanged, 'a request was accepted although its first cookie is not the cookie issued for its initiator SPI, nonce and source address')
         if reply is None or not dh:
@@ -123,6 +138,54 @@ def h_responder(n_cookies, nonce_len, cookie_len=32, version=4):
     P(core.sym_not(unchanged), 'the issued cookie, returned unchanged with the same SPI, nonce and address, was refused')
     P(L(k) == k1 if len(k) == len(k1) else False, 'the cookie issued for one and the same request changes from one refusal to the next')
     return ['responder', 'refused']
+
+
+def h_spi_reuse():
+    """controller under load (every request needs a cookie): a legitimate peer has completed the cookie round trip (its IKE_SA waits for IKE_AUTH);
+    a request that REUSES its initiator SPI - other nonce, no cookie, from the same or another configured address - gets nothing but a COOKIE,
+    causes no DH computation and changes nothing"""
+    from symx import core
+    eng = core.engine()
+    m, ik = MODS['message'], MODS['ikesa']
+    S = ik.IkeSa.State
+    c = world.Ctl()
+    c.ctl.cookie_threshold = -1
+    ep = c.new_initiator()
+    tsi, tsr = c.acquire_tss()
+    m1 = ep.call(ep.obj.process_acquire, tsi, tsr, 1)
+    r1 = c.dispatch(m1)                                   # COOKIE
+    m1b = ep.call(ep.obj.process_message, r1)
+    r2 = c.dispatch(m1b)                                  # IKE_SA_INIT response: the entry waits for IKE_AUTH
+    entry = c.ctl.ike_sas[-1]
+    if entry.state != S.INIT_RES_SENT:
+        return ['n/a', entry.state.name]
+    base = m.Message.parse(bytes(m1))
+    nonce = eng.sym_bytes('nonce', 16)
+    payloads = [m.PayloadNONCE(nonce) if x.type == m.Payload.Type.NONCE else x for x in base.payloads]
+    forged = m.Message(spi_i=ep.obj.my_spi, spi_r=b'\0' * 8, major=2, minor=0, exchange_type=34, is_response=False, can_use_higher_version=False,
+                       is_initiator=True, message_id=0, payloads=payloads, encrypted_payloads=[]).to_bytes()
+    table0 = list(c.ctl.ike_sas)
+    s0 = world.snapshot(entry, c.E.kernel)
+    dh_calls, real_dh = spy_dh()
+    try:
+        reply = c.dispatch(forged)
+    finally:
+        ik.DiffieHellman = real_dh
+    if reply is None:
+        return {'class': ['spi_reuse'], 'violation': 'no reply at all'}
+    rep = m.Message.parse(bytes(reply)) if isinstance(reply, (bytes, bytearray)) else m.Message.parse(reply)
+    kinds = [int(x.type) for x in rep.payloads]
+    if kinds != [int(m.Payload.Type.NOTIFY)] or int(rep.payloads[0].notification_type) != int(m.PayloadNOTIFY.Type.COOKIE):
+        return {'class': ['spi_reuse'], 'violation': f'a cookie-less request reusing the initiator SPI of an exchange in progress was answered with payloads {kinds} '
+                                                     f'instead of a lone COOKIE'}
+    if dh_calls:
+        return {'class': ['spi_reuse'], 'violation': 'Diffie-Hellman work for a cookie-less request'}
+    if len(c.ctl.ike_sas) != len(table0) or any(x is not y for x, y in zip(table0, c.ctl.ike_sas)):
+        return {'class': ['spi_reuse'], 'violation': 'the refused request changed the table'}
+    diff, terms = world.snap_diff(s0, world.snapshot(entry, c.E.kernel))
+    if diff:
+        return {'class': ['spi_reuse'], 'violation': f'the refused request changed the IKE_SA of the legitimate exchange: {diff}'}
+    return ['spi_reuse', 'cookie']
 
 
 def h_threshold(k_half_open, k_established, history='none'):
@@ -239,6 +302,12 @@ def build_instances(tier):
                 inst.append(Instance(f'responder cookies={n} nonce_len={nl} IPv6', h_responder, (n, nl, 32, 6), pin=PIN,
                                      must_reach=[('refused', lambda o: o == ['responder', 'refused'])] +
                                                 ([('accepted', lambda o: o[:2] == ['responder', 'accepted'])] if n else [])))
+    for variant in ('unwanted_ke_group', 'no_common_proposal'):
+        for n in (0, 1):
+            inst.append(Instance(f'responder cookies={n} nonce_len=16 {variant}', h_responder, (n, 16, 32, 4, variant), pin=PIN,
+                                 must_reach=[('refused', lambda o: o == ['responder', 'refused'])]))
+    inst.append(Instance('request reusing the SPI of an exchange in progress', h_spi_reuse, (), native=nat(h_spi_reuse),
+                         must_reach=[('cookie', lambda o: o == ['spi_reuse', 'cookie'])]))
     for cl in ((1, 31, 33) if tier == 'quick' else (1, 2, 8, 16, 20, 31, 33, 48, 64)):
         inst.append(Instance(f'responder cookies=1 nonce_len=16 cookie_len={cl}', h_responder, (1, 16, cl), pin=PIN,
                              must_reach=[('refused', lambda o: o == ['responder', 'refused'])]))
